@@ -83,6 +83,7 @@ func init() { commands["replay-activ"] = replayActiv }
 type verdict struct {
 	bad   []string // violations of the property statement
 	drift []string // specification table and code registry differ without breaking the statement
+	info  []string // behaviour the statement leaves open differs from the code as specified (information only)
 	evals int
 }
 
@@ -161,6 +162,20 @@ func checkByType(c *activCase, v *verdict) {
 		}
 	case !specKnown && tv.consistent():
 		v.differ("the code registers type %d as %q, unknown to the specification", c.T, tv.name)
+		// no closed form is tabulated for it; what the statement says of EVERY registered scalar function can still be
+		// checked: a finite value for every input of magnitude up to 1e300
+		if tv.scalarOk {
+			for _, x := range []float64{0, 1e-300, 1e-9, 0.5, 1, 2, 7.5, 40, 700, 710, 1e3, 1e6, 1e18, 1e150, 1e300} {
+				for _, sx := range []float64{x, -x} {
+					y, err := neatmath.NodeActivators.ActivateByType(sx, nil, t)
+					v.evals++
+					if err == nil && (math.IsNaN(y) || math.IsInf(y, 0)) {
+						v.fail("registered scalar activation %q (type %d) returns %v for input %v: not a finite value", tv.name, c.T, y, sx)
+						return
+					}
+				}
+			}
+		}
 	case !specKnown:
 		if tv.scalarOk {
 			v.fail("ActivateByType(%d) returned a value for an unknown type (error expected)", c.T)
@@ -428,6 +443,7 @@ func replayActiv(args []string) int {
 		specNames[n] = true
 	}
 	drift := map[string]bool{}
+	openDiff := map[string]bool{} // differences in behaviour the statement leaves open (information)
 	kinds := map[string]int{}
 	sigs := map[string]int{}
 	// names every factory is asked about in the factory cases: the specification's, the extra ones, a few unknown
@@ -455,6 +471,9 @@ func replayActiv(args []string) int {
 			rep.Evaluations += v.evals
 			for _, d := range v.drift {
 				drift[d] = true
+			}
+			for _, d := range v.info {
+				openDiff[d] = true
 			}
 			if pass == "before" {
 				rep.Cases++
@@ -557,6 +576,17 @@ func replayActiv(args []string) int {
 			ds = ds[:40]
 		}
 		rep.Extra["drift"] = ds
+	}
+	if len(openDiff) > 0 {
+		var od []string
+		for d := range openDiff {
+			od = append(od, d)
+		}
+		sort.Strings(od)
+		if len(od) > 12 {
+			od = od[:12]
+		}
+		rep.Extra["open_behaviour_differs"] = od
 	}
 	return rep.Write(*out)
 }
